@@ -10,6 +10,7 @@ pub mod c07_history;
 pub mod c08_diff;
 pub mod c10_history;
 pub mod c11_saveload;
+pub mod c15_untrusted;
 pub mod c23_bloom;
 pub mod c24_text;
 pub mod c25_marks;
@@ -37,6 +38,11 @@ pub fn registry() -> Vec<Box<dyn Check>> {
         Box::new(c10_history::C10),
         Box::new(c11_saveload::C11),
         Box::new(c11_saveload::C12),
+        Box::new(c15_untrusted::C13),
+        Box::new(c15_untrusted::C14),
+        Box::new(c15_untrusted::C15),
+        Box::new(c15_untrusted::C16),
+        Box::new(c15_untrusted::C17),
         Box::new(c23_bloom::C23),
         Box::new(c24_text::C24),
         Box::new(c25_marks::C25),
@@ -48,6 +54,7 @@ pub fn registry() -> Vec<Box<dyn Check>> {
         Box::new(c31_anonymize::C31),
         Box::new(c32_serde::C32),
         Box::new(c38_actorseq::C38),
+        Box::new(c15_untrusted::C39),
         Box::new(c40_migrate::C40),
     ]
 }
